@@ -1,28 +1,46 @@
 """C16 - every country completes under every documented preset (DESIGN.md §7 C16)."""
 import ast, copy, json, os, math
 from concurrent.futures import ProcessPoolExecutor
-from lib import pipeline
+from lib import pipeline, validators
 
 ID = "C16"
 LEVEL = "other"
-DRIVER = "driver_lp"
-LEAN_MODULES = ["AllfedModel.Props.C16"]
+DRIVER = "driver_validators"   # the executable model of validate_results.py (lib/validators.py); the grid itself needs no driver
+LEAN_MODULES = ["AllfedModel.Props.C16", "AllfedModel.Props.C16Chain"]
 OBLIGATIONS = ["Allfed.C16." + n for n in ["zero_charge_feasible_no_seaweed", "objective_bounded", "round2_feasible_of_round1",
-                                            "round2_seaweed_pin_infeasible_before_fix"]]
+                                            "round2_seaweed_pin_infeasible_before_fix",
+                                            # the chain C18 -> C16: the hand-off's minimum consumption satisfies the hypothesis of round2_feasible_of_round1
+                                            "pinsWithin_of_handoff", "round2_feasible_after_handoff", "round2_feasible_after_handoff_dailyMax"]]
+# the built-in validators (validate_results.py) as consequences of C01/C03/C04/C18 for exact solutions, or proved counter-examples
+# where a validator is a heuristic relation between rounds / uses its tolerance in a way an exact solution can violate (notes/C16-validators.md)
+OBLIGATIONS += ["Allfed.C16.validator_" + n for n in [
+    "all_ge_zero_of_feasible", "never_nan", "zero_kcals_excluded", "zero_kcals_linear",
+    "optimizer_same_as_sum_of_feasible", "optimizer_same_as_sum_counterexample", "optimizer_same_as_sum_feasible_counterexample",
+    "check_row_iff_rowExcess", "check_constraints_of_feasible", "check_constraints_zero_tolerance_counterexample",
+    "population_of_antitone", "population_counterexample", "round2_greater_of_ge", "round2_greater_counterexample",
+    "meat_dairy_of_redistribute", "min_consumption_sum_of_handoff", "min_consumption_sum_counterexample",
+    "usage_priorities_of_handoff", "used_below_demand_human_round", "used_below_demand_feed_round",
+    "fewer_calories_of_le", "feed_round3_below_round2_of_le", "feed_round3_below_round2_zero_eps_counterexample",
+    "round3_not_lower_never_raises", "feed_zero_if_starving_never_raises", "round_relations_counterexample"]]
 LEVEL_TEXT = ("other / partial. A finite grid of concrete executions of the real pipeline and solver (164 countries x the enumerated presets): each run must complete, pass the model's own "
               "validators and report a finite, non-negative percent fed. Lean adds, for all inputs: the zero-charge rounds' LP (no seaweed) has a feasible point and a bounded objective, and the "
               "feed-maximising round has a feasible point whenever the human-maximising round before it had one and the pinned minimum consumption lies within what that round ate "
-              "(round2_feasible_of_round1; false for the formulation before the seaweed-pin repair: round2_seaweed_pin_infeasible_before_fix), so a failure there can only be numerical; and the quantities the built-in validators test are implied by C01/C03/C04 for exact solutions. Completion of a CBC solve is runtime "
+              "(round2_feasible_of_round1; false for the formulation before the seaweed-pin repair: round2_seaweed_pin_infeasible_before_fix), so a failure there can only be numerical; and an executable model of the "
+              "built-in validators (validate_results.py), run against the real Validator on generated and captured inputs every check, with theorems validator_*: each validator the pipeline can fail on is implied by "
+              "C01/C03/C04/C18 for exact solutions and every tolerance >= 0 (headline check: for optima <= 10000 %), the heuristic relations between rounds are not (proved counter-examples). Completion of a CBC solve is runtime "
               "behaviour no model can exhibit; the quick tier runs a seeded rotating subset, the thorough tier the whole grid.")
 LEVEL_NOTE = ("Trusted: the harness running the real ScenarioRunner in worker processes from a scratch copy; presets are read from the shipped YAML files and from the AST of plot_manuscript_figures.py. "
               "A theorem cannot decide this property (solver completion): it is decided by executing the grid; quick = subset.")
-TECHNIQUE = "grid execution of the real pipeline (decides the property) + Lean 4 feasibility theorems for the zero-charge round and for round 2 after round 1"
+TECHNIQUE = ("grid execution of the real pipeline (decides the property) + Lean 4 feasibility theorems for the zero-charge round and for round 2 after round 1 "
+             "+ Lean 4 model of the built-in validators (differential correspondence with the real Validator) with theorems deriving them from C01/C03/C04/C18")
 RULE = ("grid = countries of the shipped table x presets {simulations of the three shipped YAML files; the option sets built by plot_manuscript_figures.py (figure 1: ten sets, figure 2: two); "
         "single-option variations of the nuclear-winter/resilient-foods preset, one per value of each option family}; quick = seeded sample; a case = one full three-round run; "
         "non-trivial = the run reached the optimiser; distinct = (country, preset)")
 EXPLANATION = ("Executes the real pipeline for (country, preset) pairs and records exceptions, validator failures and non-finite or negative results. "
                "Known failing pairs are listed in known_findings.json keyed by (country, preset family).")
-ASSUMPTIONS = ["world aggregate (scale=global) is run in the thorough tier only", "the code's own alter_scenario_if_known_to_fail rewrites are part of the behaviour under test"]
+ASSUMPTIONS = ["world aggregate (scale=global) is run in the thorough tier only", "the code's own alter_scenario_if_known_to_fail rewrites are part of the behaviour under test",
+               "validator theorems: fat and protein switched off (as in buildLP and every documented option set); tolerances >= 0 (check_constraints and feed-round3-vs-round2: > 0); "
+               "headline check: optimum <= 10000 %; minimum-consumption sum: min(p1, T) <= 100; exact arithmetic (a CBC answer is feasible only up to its own tolerances, which is what the validators' tolerances are for)"]
 
 
 CORPUS = [("CMR", "variation:shutoff=continued_after_10_percent_fed"), ("CMR", "variation:shutoff=long_delayed_shutoff_after_10_percent_fed"),
@@ -154,10 +172,15 @@ def grid(ctx):
         # the rows most likely to hit a rarely taken branch; each under the resilient-foods and the simple-adaptations presets
         rows = pipeline.country_rows()
         cols = ["population", "crop_kcals", "crop_area_1000ha", "grasses_baseline", "grasses_reduction_year3", "crop_reduction_year3", "aq_kcals", "dairy_cows",
-                "stocks_kcals_may", "feed_kcals", "biofuel_kcals", "max_area_fraction", "wood_pulp_tonnes", "large_animals"]
+                "stocks_kcals_may", "feed_kcals", "biofuel_kcals", "max_area_fraction", "wood_pulp_tonnes", "large_animals", "medium_animals", "small_animals"]
         extreme = []
         for c in cols:
             vals = [(float(rows[i][c]), i) for i in isos if c in rows[i]]
+            if vals:
+                extreme += [min(vals)[1], max(vals)[1]]
+        # ... and of the same columns per head of population (pastoral countries, exporters, fishing nations)
+        for c in cols[1:]:
+            vals = [(float(rows[i][c]) / max(1.0, float(rows[i]["population"])), i) for i in isos if c in rows[i]]
             if vals:
                 extreme += [min(vals)[1], max(vals)[1]]
         extreme = sorted(set(extreme))
@@ -207,12 +230,27 @@ def correspondence(ctx):
         r = _worker((ctx.repo, "WOR", "world:shutoff=" + sh, pipeline.options(scale="global", shutoff=sh)))
         judge(ctx, r)
     ctx.extra["exhaustive_over_grid"] = not ctx.quick
+    # the model's built-in validators against their Lean model: generated inputs on both sides of every tolerance + captured real calls
+    # (after the grid: the generated part sets Food.conversions in this process; the grid's workers were forked before)
+    validators.check(ctx)
 
 
 def search(ctx):
-    if ctx.quick and not ctx.violations:  # a different seeded sample; the thorough tier already ran the whole grid
-        ctx.rng.random()
-        correspondence(ctx)
+    """a proof or a correspondence broke and no run failed yet: a larger seeded sample of the grid (the thorough tier already ran all of it)"""
+    if not ctx.quick or ctx.violations:
+        return
+    presets = yaml_presets(ctx.repo) + manuscript_presets(ctx.repo) + variation_presets()
+    isos = sorted(pipeline.country_rows())
+    jobs = []
+    for _ in range(420):
+        p = ctx.rng.choice(presets)
+        iso = ctx.rng.choice(p[2]) if (p[2] and ctx.rng.random() < 0.5) else ctx.rng.choice(isos)
+        if iso in isos:
+            jobs.append((iso, p[0], p[1]))
+    with ProcessPoolExecutor(max_workers=14) as ex:
+        for r in ex.map(_worker, [(ctx.repo, iso, name, copy.deepcopy(o)) for iso, name, o in jobs], chunksize=1):
+            judge(ctx, r)
+    ctx.extra["search_jobs"] = len(jobs)
 
 
 def replay(ctx, rep):
